@@ -105,7 +105,7 @@ fn new_world() -> World {
 
 /// The round trip. `refs[i]` = which source entity `i`'s `CR` points at (concrete per variant:
 /// it decides the order in which the loader meets markers); everything else is symbolic.
-pub fn round_trip(refs: [usize; NI], mk: [bool; NI]) {
+pub fn round_trip(refs: [usize; NI], mk: [bool; NI], cvm: [bool; NI], crm: [bool; NI]) {
     // ---------------- source world
     let mut w1 = new_world();
     let mut slots = [VerifSlot { id: 0, gen: 0, alive: false, raised: false, killed: false }; NI];
@@ -130,13 +130,18 @@ pub fn round_trip(refs: [usize; NI], mk: [bool; NI]) {
             // which entities are marked is concrete per variant (the join over the marker storage
             // drives the serialiser; a symbolic mask makes every index downstream symbolic)
             marked[i] = mk[i];
-            mid[i] = nd::u8();
+            // marker ids are constants: the loader looks entities up BY marker id, and a symbolic
+            // id makes every such lookup (hence every later creation) undecided for the symbolic
+            // executor
+            mid[i] = 10 * (i as u8 + 1) + 3;
             if marked[i] {
                 let r = sm.insert(es[i], Mk(mid[i]));
                 assert!(r.is_ok());
                 forget(r);
             }
-            if nd::bool() {
+            // which components exist is concrete per variant too (it decides the token positions
+            // in the data); the VALUES are symbolic
+            if cvm[i] {
                 let v = nd::u8();
                 let r = sv.insert(es[i], CV(v));
                 assert!(r.is_ok());
@@ -151,7 +156,7 @@ pub fn round_trip(refs: [usize; NI], mk: [bool; NI]) {
         for i in 0..NI {
             // a reference component only on marked entities pointing at marked entities (the
             // conversion of an entity field unwraps the marker lookup by design)
-            if marked[i] && marked[refs[i]] && nd::bool() {
+            if marked[i] && marked[refs[i]] && crm[i] {
                 let tag = nd::u8();
                 let r = sr.insert(es[i], CR { target: es[refs[i]], tag });
                 assert!(r.is_ok());
@@ -254,13 +259,32 @@ pub fn round_trip(refs: [usize; NI], mk: [bool; NI]) {
     for i in 0..NI {
         assert!(seen[i] == if marked[i] { 1 } else { 0 }, "C14: a marked entity was not loaded exactly once / an unmarked one was transferred");
     }
-    witness!(
-        (!(mk[0] && mk[refs[0]]) || cr[0].is_some()) && (!(mk[1] && mk[refs[1]]) || cr[1].is_some()) && (!(mk[2] && mk[refs[2]]) || cr[2].is_some()) && cv[1].is_some(),
-        "every possible reference component is present"
-    );
-    witness!(cv[0].is_none() && cr[0].is_none(), "an entity without components");
+    witness!(true, "end reached");
     forget((ents, sm, sv, sr));
     forget((w1, w2, alloc));
+}
+
+/// Sequential stand-ins for specs' private CAS loops `atomic_increment` / `atomic_decrement`
+/// (same result on a single thread; the loops themselves are decided by the allocator harnesses).
+pub fn inc_stub(i: &std::sync::atomic::AtomicUsize) -> Option<usize> {
+    use std::sync::atomic::Ordering;
+    let p = i.load(Ordering::Relaxed);
+    if p == usize::MAX {
+        None
+    } else {
+        i.store(p + 1, Ordering::Relaxed);
+        Some(p)
+    }
+}
+pub fn dec_stub(i: &std::sync::atomic::AtomicUsize) -> Option<usize> {
+    use std::sync::atomic::Ordering;
+    let p = i.load(Ordering::Relaxed);
+    if p == 0 {
+        None
+    } else {
+        i.store(p - 1, Ordering::Relaxed);
+        Some(p)
+    }
 }
 
 include!("variants.rs");
